@@ -419,12 +419,19 @@ func CheckC01(run *Run) {
 		}
 	}
 
+	// request histories: every RPC of the single-service packages is called many times in sequence on ONE
+	// registration of the emitted server (one process, one mux, one client instance per content type)
+	hists := c01Histories(run, reqs, s, featIDs)
+
 	// run on the implementation
-	scen := make([]any, len(cases))
+	scen := make([]any, len(cases), len(cases)+len(hists))
 	for i, c := range cases {
 		scen[i] = map[string]any{"id": fmt.Sprint(i), "kind": "call", "pkg": c.req.ID, "service": c.svc.Name, "method": c.md.Name,
 			"req": WireHex(c.reqMsg), "script": map[string]any{"resp": WireHex(c.resp)},
 			"opts": map[string]any{"ContentType": ctNames[c.ct]}}
+	}
+	for i, h := range hists {
+		scen = append(scen, h.scenario(fmt.Sprintf("h%d", i)))
 	}
 	mark("cases")
 	raw, err := RunScenarios(s.Runner, scen, 8)
@@ -432,6 +439,50 @@ func CheckC01(run *Run) {
 		run.Fatal("runner: %v", err)
 	}
 	mark("run_scenarios")
+	obsOf := make([]*RunnerObs, len(cases))
+	histInfo := make([]map[string]any, len(cases))
+	for i := range cases {
+		o := &RunnerObs{}
+		if err := json.Unmarshal(raw[i], o); err != nil {
+			run.Fatal("bad observation: %v", err)
+		}
+		obsOf[i] = o
+	}
+	type histExp struct {
+		cs    []*callCase
+		os    []*RunnerObs
+		infos []map[string]any
+		note  string
+	}
+	exps := make([]histExp, len(hists))
+	dependent, delivered := make([]bool, len(hists)), make([]bool, len(hists))
+	for i, h := range hists {
+		var o RunnerObs
+		if err := json.Unmarshal(raw[len(scen)-len(hists)+i], &o); err != nil {
+			run.Fatal("bad observation: %v", err)
+		}
+		e := &exps[i]
+		e.cs, e.os, e.infos, e.note, dependent[i], delivered[i] = h.expand(&o)
+	}
+	nSel, nDep := 0, 0
+	for i, take := range c01SelectHistories(run, hists, dependent, delivered) {
+		if dependent[i] {
+			nDep++
+		}
+		if !take {
+			continue
+		}
+		nSel++
+		if exps[i].note != "" {
+			run.Notes = append(run.Notes, exps[i].note)
+		}
+		cases = append(cases, exps[i].cs...)
+		obsOf = append(obsOf, exps[i].os...)
+		histInfo = append(histInfo, exps[i].infos...)
+	}
+	run.Extra["histories_modelled"] = nSel
+	run.Extra["histories_state_dependent"] = nDep
+	mark("histories")
 	// model
 	var defs strings.Builder
 	defIdx := map[string]int{}
@@ -444,14 +495,11 @@ func CheckC01(run *Run) {
 	var ccs []CoqCase
 	var results []*CaseResult
 	for i, c := range cases {
-		var o RunnerObs
-		if err := json.Unmarshal(raw[i], &o); err != nil {
-			run.Fatal("bad observation: %v", err)
-		}
+		o := obsOf[i]
 		if o.Error != "" {
 			run.Fatal("runner error on case %d: %s", i, o.Error)
 		}
-		obs, holds, note := callObservation(c, &o)
+		obs, holds, note := callObservation(c, o)
 		reqJ, reqC := MsgCanon(c.reqMsg)
 		respJ, respC := MsgCanon(c.resp)
 		cr := &CaseResult{ID: fmt.Sprintf("%s/%s.%s#%d", c.req.ID, c.svc.Name, c.md.Name, i), Family: c.family,
@@ -459,6 +507,12 @@ func CheckC01(run *Run) {
 				"content_type": ctNames[c.ct], "request": reqJ, "response": respJ},
 			Obs: obs, OracleHolds: holds, OracleNote: note, NonTrivial: len(reqJ) > 0 || len(respJ) > 0,
 			Features: []string{"ct:" + ctNames[c.ct], "verb:" + c.md.Verb, c.family}}
+		if histInfo[i] != nil {
+			cr.Input.(map[string]any)["history"] = histInfo[i]
+			if !holds {
+				cr.OracleNote = note + " (within a sequence of calls on one server registration; see input.history)"
+			}
+		}
 		results = append(results, cr)
 		ccs = append(ccs, CoqCase{Term: fmt.Sprintf("(sc_%d, (%s, %s), %d%%nat, %s, %s)", defIdx[c.req.ID], CoqStr(c.svc.Name), CoqStr(c.md.Name), c.ct, reqC, respC), Obs: obs})
 	}
